@@ -12,7 +12,7 @@ import json
 from vlib import core, opskit
 
 RULE = ("as C10 (random populations x operator sequences of length 1-12 x forced completion orders); every observed population / evaluation result is snapshotted at "
-        "observation time and compared at the end of the sequence; distinct = distinct spec; non-trivial = at least two executed operators one of which is a speciation")
+        "observation time and compared at the end of the sequence, the argument of every application also right after the call; plus mutation operators applied directly to freshly speciated populations with probabilities at which nobody is drawn; distinct = distinct spec; non-trivial = at least two executed operators one of which is a speciation")
 
 
 def oracle(tr, report):
@@ -26,13 +26,16 @@ def run(ctx):
     for f in sorted(cdir.glob("*.json")) if cdir.exists() else []:
         specs.append(json.loads(f.read_text()))
     specs += opskit.all_orders_specs(ctx.rng)[::6]
+    specs += opskit.merge_specs(ctx.rng, ctx.n(6, 60))
+    specs += opskit.mutation_after_speciation_specs(ctx.rng, ctx.n(30, 300))
     for _ in range(ctx.n(150, 3000)):
         spec = opskit.random_spec(ctx.rng)
         # histories matter: make sure most sequences contain a second speciation after something was recorded
         if ctx.rng.random() < 0.5:
             spec["steps"] = (spec["steps"] + [{"op": "speciation", "thr": ctx.rng.choice([1, 2, 3]), "seed": ctx.rng.randint(0, 10**6)}])[:13]
         specs.append(spec)
-    kept = opskit.drive(ctx, "C11", specs, None, oracle, "check_heap_case", "heap-model-vs-impl")
+    kept = opskit.drive(ctx, "C11", specs, opskit.oracle_c11_step, oracle, "check_heap_case", "heap-model-vs-impl",
+                        nontrivial=lambda spec, tr: len(tr.steps) >= 2 and any(s.spec["op"] == "speciation" for s in tr.steps))
     shared = 0
     for spec, tr in kept:
         for kind, s1, s2 in opskit.sharing_report(tr):
@@ -45,7 +48,7 @@ def run(ctx):
 def replay(ctx, payload):
     spec = payload.get("case") or payload.get("failing_input")
     spec = {k: v for k, v in spec.items() if k != "failing_step"}
-    opskit.drive(ctx, "C11_replay", [spec], None, oracle, "check_heap_case", "heap-model-vs-impl")
+    opskit.drive(ctx, "C11_replay", [spec], opskit.oracle_c11_step, oracle, "check_heap_case", "heap-model-vs-impl")
     for v in ctx.violations:
         print(f"{v['kind']}: {v['key']}: {v['what']}")
     print("impl-vs-property:", "FAILS" if any(v["kind"] == "oracle" for v in ctx.violations) else "ok")
